@@ -168,6 +168,9 @@ pub struct Config {
     pub rate: f64,
     /// write the public field directly (out-of-range / NaN rates)
     pub raw_rate: bool,
+    /// Some(w): the generator first produces an unrelated, memo-rich pickle (seed w, 150..400
+    /// opcodes) and only then the observed one - outputs must not depend on that history
+    pub warmup: Option<u64>,
     pub unsafe_mut: bool,
     pub ext: bool,
     pub buf: bool,
@@ -183,6 +186,7 @@ impl Config {
             mutators: vec![],
             rate: 0.1,
             raw_rate: false,
+            warmup: None,
             unsafe_mut: false,
             ext: false,
             buf: false,
@@ -231,7 +235,7 @@ impl Config {
             },
             "min": self.min, "max": self.max,
             "mutators": self.mutators.iter().map(|m| m.name()).collect::<Vec<_>>(),
-            "rate": rate, "raw_rate": self.raw_rate,
+            "rate": rate, "raw_rate": self.raw_rate, "warmup": self.warmup,
             "unsafe": self.unsafe_mut, "ext": self.ext, "buf": self.buf,
         })
     }
@@ -258,6 +262,7 @@ impl Config {
                 .unwrap_or_default(),
             rate,
             raw_rate: v["raw_rate"].as_bool().unwrap_or(false),
+            warmup: v.get("warmup").and_then(|w| w.as_u64()),
             unsafe_mut: v["unsafe"].as_bool().unwrap_or(false),
             ext: v["ext"].as_bool().unwrap_or(false),
             buf: v["buf"].as_bool().unwrap_or(false),
@@ -266,7 +271,7 @@ impl Config {
 
     pub fn short(&self) -> String {
         format!(
-            "P{} {} [{},{}] mut={:?}@{} unsafe={} ext={} buf={}",
+            "P{} {} [{},{}] mut={:?}@{} unsafe={} ext={} buf={}{}",
             self.proto,
             match &self.entropy {
                 Entropy::Seed(s) => format!("seed={}", s),
@@ -278,7 +283,8 @@ impl Config {
             self.rate,
             self.unsafe_mut as u8,
             self.ext as u8,
-            self.buf as u8
+            self.buf as u8,
+            if self.warmup.is_some() { " reused-generator" } else { "" }
         )
     }
 }
@@ -312,7 +318,33 @@ pub fn quiet_panics() {
     std::panic::set_hook(Box::new(|_| {}));
 }
 
+fn describe(g: &Generator, entropy: &Entropy) -> String {
+    let names: Vec<String> = g.mutators.iter().map(|m| format!("\"{}\"", m.name())).collect();
+    let ent = match entropy {
+        Entropy::Seed(s) => format!("{{\"seed\":{}}}", g.seed.unwrap_or(*s)),
+        Entropy::Bytes(b) => format!("{{\"bytes_hex\":\"{}\"}}", hex(&b[..b.len().min(8192)])),
+    };
+    let rate = if g.mutation_rate.is_finite() {
+        format!("{}", g.mutation_rate)
+    } else {
+        format!("\"{}\"", g.mutation_rate)
+    };
+    format!(
+        "{{\"proto\":{},\"entropy\":{},\"min\":{},\"max\":{},\"mutators\":[{}],\"rate\":{},\"raw_rate\":true,\"unsafe\":{},\"ext\":{},\"buf\":{}}}",
+        g.state.version as u8,
+        ent,
+        g.min_opcodes,
+        g.max_opcodes,
+        names.join(","),
+        rate,
+        g.unsafe_mutations,
+        g.allow_ext_opcodes,
+        g.allow_buffer_opcodes
+    )
+}
+
 pub fn gen_once(g: &mut Generator, entropy: &Entropy) -> Outcome {
+    let _watch = watch::enter(describe(g, entropy), g.min_opcodes.max(g.max_opcodes));
     let r = catch_unwind(AssertUnwindSafe(|| match entropy {
         Entropy::Seed(_) => g.generate(),
         Entropy::Bytes(b) => g.generate_from_arbitrary(b),
@@ -327,6 +359,17 @@ pub fn gen_once(g: &mut Generator, entropy: &Entropy) -> Outcome {
 /// run one fresh-generator case; `trace` = Some(cfg) records the hook event log
 pub fn run_case(cfg: &Config, trace: Option<verif::Config>) -> CaseResult {
     let mut g = cfg.build();
+    if let Some(w) = cfg.warmup {
+        // reused generator: an earlier, unrelated generation on the same instance
+        let (m0, m1, s0) = (g.min_opcodes, g.max_opcodes, g.seed);
+        g.min_opcodes = 150;
+        g.max_opcodes = 400;
+        g.seed = Some(w);
+        let _ = gen_once(&mut g, &Entropy::Seed(w));
+        g.min_opcodes = m0;
+        g.max_opcodes = m1;
+        g.seed = s0;
+    }
     if let Some(t) = trace {
         verif::start(t);
     }
@@ -502,4 +545,170 @@ pub fn sample_of(cfg: &Config, bytes: &[u8], ops: &[&str]) -> Value {
         "opcodes_head": ops.iter().take(24).collect::<Vec<_>>(),
         "n_opcodes": ops.len(),
     })
+}
+
+// ---------------------------------------------------------------- work-bound watchdog
+
+/// Converts a generation that never returns into a verdict instead of a hung check.
+///
+/// Every generation call registers itself (thread, description, CPU clock of the thread at
+/// entry). A watchdog thread polls: a call that has consumed more CPU time *on its own
+/// thread* (CLOCK_THREAD_CPUTIME_ID, independent of machine load) than the work bound
+/// `max(20 s, 2e-6 s * T^2)` (T = opcode budget; >= 60x the slowest generation observed on the
+/// repaired tree) is reported: as a VIOLATION of C09 ("never loops forever", restated as a
+/// bound on work) by the C09 check, as INCONCLUSIVE by every other check. The result file is
+/// written and the process exits, because a running generation cannot be interrupted.
+pub mod watch {
+    use std::sync::{Arc, Mutex, OnceLock};
+    use std::time::{Duration, Instant};
+
+    pub struct Slot {
+        pub thread: libc::pthread_t,
+        pub active: bool,
+        pub desc: String,
+        pub budget_s: f64,
+        pub cpu_start: f64,
+        pub wall_start: Instant,
+    }
+
+    struct Ctx {
+        property: String,
+        tier: String,
+        seed: u64,
+        outdir: String,
+    }
+
+    static SLOTS: Mutex<Vec<Arc<Mutex<Slot>>>> = Mutex::new(Vec::new());
+    static CTX: OnceLock<Ctx> = OnceLock::new();
+
+    thread_local! {
+        static MINE: Arc<Mutex<Slot>> = {
+            let s = Arc::new(Mutex::new(Slot {
+                thread: unsafe { libc::pthread_self() },
+                active: false,
+                desc: String::new(),
+                budget_s: 0.0,
+                cpu_start: 0.0,
+                wall_start: Instant::now(),
+            }));
+            SLOTS.lock().unwrap().push(s.clone());
+            s
+        };
+    }
+
+    fn clock(id: libc::clockid_t) -> f64 {
+        let mut ts = libc::timespec { tv_sec: 0, tv_nsec: 0 };
+        unsafe {
+            libc::clock_gettime(id, &mut ts);
+        }
+        ts.tv_sec as f64 + ts.tv_nsec as f64 * 1e-9
+    }
+
+    pub fn work_bound(opcode_budget: usize) -> f64 {
+        let t = opcode_budget as f64;
+        (2e-6 * t * t).max(20.0)
+    }
+
+    pub struct Guard;
+
+    impl Drop for Guard {
+        fn drop(&mut self) {
+            let _ = MINE.try_with(|m| {
+                let mut s = m.lock().unwrap();
+                s.active = false;
+                // free the description now: nothing of the monitor may stay allocated across
+                // the leak monitor's measurement window
+                s.desc = String::new();
+            });
+        }
+    }
+
+    /// register the generation call that is about to start on this thread
+    pub fn enter(desc: String, opcode_budget: usize) -> Guard {
+        MINE.with(|m| {
+            let mut s = m.lock().unwrap();
+            s.desc = desc;
+            s.budget_s = work_bound(opcode_budget);
+            s.cpu_start = clock(libc::CLOCK_THREAD_CPUTIME_ID);
+            s.wall_start = Instant::now();
+            s.active = true;
+        });
+        Guard
+    }
+
+    /// start the watchdog thread (once per process)
+    pub fn init(property: &str, tier: &str, seed: u64, outdir: &str) {
+        if CTX
+            .set(Ctx {
+                property: property.to_string(),
+                tier: tier.to_string(),
+                seed,
+                outdir: outdir.to_string(),
+            })
+            .is_err()
+        {
+            return;
+        }
+        std::thread::spawn(|| loop {
+            std::thread::sleep(Duration::from_millis(1500));
+            let slots: Vec<Arc<Mutex<Slot>>> = SLOTS.lock().unwrap().clone();
+            for s in slots {
+                let (thread, desc, budget, cpu_start, wall) = {
+                    let s = s.lock().unwrap();
+                    if !s.active || s.wall_start.elapsed().as_secs_f64() < s.budget_s.min(20.0) {
+                        continue;
+                    }
+                    (s.thread, s.desc.clone(), s.budget_s, s.cpu_start, s.wall_start.elapsed().as_secs_f64())
+                };
+                let mut cid: libc::clockid_t = 0;
+                if unsafe { libc::pthread_getcpuclockid(thread, &mut cid) } != 0 {
+                    continue;
+                }
+                let used = clock(cid) - cpu_start;
+                if used > budget {
+                    // still the same call? (re-check under the lock)
+                    if !s.lock().unwrap().active {
+                        continue;
+                    }
+                    report(&desc, used, budget, wall);
+                }
+            }
+        });
+    }
+
+    fn report(desc: &str, used: f64, budget: f64, wall: f64) -> ! {
+        let ctx = CTX.get().expect("watch ctx");
+        let msg = format!(
+            "a generation call did not return: it has consumed {:.0} s of CPU on its own thread ({:.0} s wall), work bound {:.0} s; case: {}",
+            used, wall, budget, desc
+        );
+        let is_c09 = ctx.property == "C09";
+        let replay_path = format!("{}/replay/{}-{}-stuck.json", ctx.outdir, ctx.property, ctx.seed);
+        std::fs::create_dir_all(format!("{}/replay", ctx.outdir)).ok();
+        let cfg_json: serde_json::Value = serde_json::from_str(desc).unwrap_or(serde_json::Value::String(desc.to_string()));
+        let replay = serde_json::json!({"kind": "stuck", "property": ctx.property, "message": msg, "config": cfg_json,
+            "cpu_s": used, "work_bound_s": budget, "signature": "C09:work_bound:generation_did_not_return"});
+        std::fs::write(&replay_path, serde_json::to_string_pretty(&replay).unwrap()).ok();
+        let mut result = serde_json::json!({
+            "property_id": ctx.property, "tier": ctx.tier, "seed": ctx.seed, "level": "exploration",
+            "coverage": {"evaluations": 1, "distinct_nontrivial": 0,
+                "rule": "run aborted by the work-bound watchdog: one generation call exceeded its CPU work bound",
+                "samples": [replay.clone()]},
+            "assumptions": [], "wall_s": wall, "violations": 0, "violations_detail": [], "inconclusive": [],
+            "o3_file": serde_json::Value::Null, "o3_queued": 0,
+        });
+        if is_c09 {
+            result["violations"] = serde_json::json!(1);
+            result["violations_detail"] = serde_json::json!([{"signature": "C09:work_bound:generation_did_not_return", "message": msg, "replay": replay_path}]);
+        } else {
+            result["inconclusive"] = serde_json::json!([format!("watchdog: {}", msg)]);
+        }
+        std::fs::write(
+            format!("{}/result-{}.json", ctx.outdir, ctx.property),
+            serde_json::to_string_pretty(&result).unwrap(),
+        )
+        .ok();
+        eprintln!("pfv watchdog: {}", msg);
+        std::process::exit(if is_c09 { 1 } else { 2 });
+    }
 }
